@@ -91,6 +91,9 @@ type World struct {
 	lockMu   sync.Mutex
 	lockCond *sync.Cond
 	lockOwn  map[string]string
+	lockWait map[string]string // request -> key it is blocked on (RealLock)
+	live     map[string]bool   // requests inside Do (RealLock)
+	RealPanics []string        // panics of finished requests (RealLock), under lockMu
 	Jitter   func()
 
 	// pages served by GetInbox/GetOutbox of the protocols (C20)
@@ -102,7 +105,7 @@ type World struct {
 func NewWorld(cfg Config) *World {
 	w := &World{LocalHosts: map[string]bool{}, Actors: map[string]*ActorSpec{}, byInbox: map[string]*ActorSpec{}, byOutbox: map[string]*ActorSpec{},
 		Store: map[string][]byte{}, Inboxes: map[string][]byte{}, Outboxes: map[string][]byte{}, StoredInbox: map[string]string{}, Remote: map[string]RemoteSpec{},
-		Cfg: cfg, FailAt: map[int]bool{}, lockOwn: map[string]string{}}
+		Cfg: cfg, FailAt: map[int]bool{}, lockOwn: map[string]string{}, lockWait: map[string]string{}, live: map[string]bool{}}
 	w.lockCond = sync.NewCond(&w.lockMu)
 	return w
 }
@@ -286,8 +289,10 @@ func (d DB) Lock(c context.Context, id *url.URL) error {
 		key, req := IRI(id), ReqOf(c)
 		w.lockMu.Lock()
 		for w.lockOwn[key] != "" && w.lockOwn[key] != req {
+			w.lockWait[req] = key
 			w.lockCond.Wait()
 		}
+		delete(w.lockWait, req)
 		w.lockOwn[key] = req
 		w.lockMu.Unlock()
 	}
@@ -310,6 +315,62 @@ func (d DB) Unlock(c context.Context, id *url.URL) error {
 	}
 	w.point(c, "db.Unlock.after "+IRI(id))
 	return nil
+}
+
+// realEnter / realLeave bracket one request on real threads.
+func (w *World) realEnter(req string) {
+	if !w.RealLock {
+		return
+	}
+	w.lockMu.Lock()
+	w.live[req] = true
+	w.lockMu.Unlock()
+}
+
+func (w *World) realLeave(req, panicMsg string) {
+	if !w.RealLock {
+		return
+	}
+	w.lockMu.Lock()
+	delete(w.live, req)
+	if panicMsg != "" {
+		w.RealPanics = append(w.RealPanics, req+": "+panicMsg)
+	}
+	w.lockMu.Unlock()
+}
+
+// RealDeadlock decides, on the lock table alone (no clock), whether the
+// real-thread run can never finish: there are requests still inside the
+// library, every one of them is blocked in Database.Lock, and every awaited
+// key is held by a request that is itself blocked or has already returned
+// (a leaked lock). That state is stable: nobody is left to call Unlock.
+func (w *World) RealDeadlock() (bool, string) {
+	w.lockMu.Lock()
+	defer w.lockMu.Unlock()
+	if len(w.live) == 0 {
+		return false, ""
+	}
+	var desc []string
+	for req := range w.live {
+		key, waiting := w.lockWait[req]
+		if !waiting {
+			return false, ""
+		}
+		own := w.lockOwn[key]
+		if own == "" || own == req {
+			return false, ""
+		}
+		state := "blocked"
+		if !w.live[own] {
+			state = "returned without unlocking"
+		}
+		desc = append(desc, fmt.Sprintf("%s waits for %s held by %s (%s)", req, key, own, state))
+	}
+	sort.Strings(desc)
+	if len(w.RealPanics) > 0 {
+		desc = append(desc, "panics: "+strings.Join(w.RealPanics, "; "))
+	}
+	return true, strings.Join(desc, "; ")
 }
 
 func itemsOf(page []byte) []string {
